@@ -504,6 +504,44 @@ fn c18_tb_v4_packet_shaped_request() {
     kani::cover!(header.mode == NtpAssociationMode::Client, "reachable");
 }
 
+/// Quick-tier slice of the packet-level builders: a request WITHOUT extension fields (any header,
+/// optional MAC), NTPv3 and NTPv4. Every builder answers in the request's version with the header
+/// of the header-level contract, no extension field and no MAC.
+#[kani::proof]
+#[kani::unwind(8)]
+#[kani::stub(crate::system::TimeSnapshot::root_dispersion, root_dispersion_uf)]
+#[kani::stub(crate::packet::v5::NtpServerCookie::new_random, server_cookie_stub)]
+fn c18_b_v3v4_packet_builders_without_fields() {
+    let macbuf: [u8; 4] = kani::any();
+    let header = any_header_v3v4();
+    let v3: bool = kani::any();
+    let wrap = |h: NtpHeaderV3V4| if v3 { NtpHeader::V3(h) } else { NtpHeader::V4(h) };
+    let mk = || NtpPacket { header: wrap(header), efdata: ExtensionFieldData::default(), mac: any_mac(&macbuf) };
+    let info = any_server_info(false);
+    let (recv, clock, _rd) = (any_ts(), VClock(any_ts()), rd_value());
+    let empty = ExtensionFieldData::default();
+    let r = NtpPacket::timestamp_response(info, mk(), recv, &clock);
+    let mut h = NtpHeaderV3V4::timestamp_response(&info, header, recv, &clock);
+    if !v3 && header.reference_timestamp == v5::UPGRADE_TIMESTAMP {
+        h.reference_timestamp = v5::UPGRADE_TIMESTAMP;
+    }
+    assert!(r.header == wrap(h) && r.efdata == empty && r.mac.is_none(), "time answer keeps the version");
+    let r = NtpPacket::deny_response(mk());
+    assert!(r.header == wrap(NtpHeaderV3V4::deny_response(header)) && r.efdata == empty && r.mac.is_none(), "DENY keeps the version");
+    let r = NtpPacket::rate_limit_response(mk());
+    assert!(r.header == wrap(NtpHeaderV3V4::rate_limit_response(header)) && r.efdata == empty && r.mac.is_none(), "RATE keeps the version");
+    if !v3 {
+        let r = NtpPacket::nts_nak_response(mk());
+        assert!(r.header == wrap(NtpHeaderV3V4::nts_nak_response(header)) && r.efdata == empty && r.mac.is_none());
+        let r = NtpPacket::nts_deny_response(mk());
+        assert!(r.header == wrap(NtpHeaderV3V4::deny_response(header)) && r.efdata == empty && r.mac.is_none());
+        let r = NtpPacket::nts_rate_limit_response(mk());
+        assert!(r.header == wrap(NtpHeaderV3V4::rate_limit_response(header)) && r.efdata == empty && r.mac.is_none());
+    }
+    kani::cover!(v3, "NTPv3 request");
+    kani::cover!(!v3 && header.reference_timestamp == v5::UPGRADE_TIMESTAMP, "upgrade marker");
+}
+
 /// NTPv3: the answer has the request's version, the header of the header-level contract, no
 /// extension fields and no MAC whatever the request carried.
 #[kani::proof]
@@ -1045,6 +1083,48 @@ harness! {
         }
         kani::cover!(len == 80 && matches!(NtpPacket::deserialize(d, &NoCipher), Ok((p, _)) if matches!(p.header, NtpHeader::V5(_))), "accepted NTPv5 datagram reachable");
         kani::cover!(len == 0, "empty datagram reachable");
+    }
+}
+
+// quick-tier slice of the same contract: datagrams shorter than a header (0..=47 bytes, the empty
+// datagram included) are rejected without a panic, whatever their first byte says. The extension
+// field decoder is replaced by its contract (it is never reached for these lengths: the contract
+// stub asserts its precondition).
+harness! {
+    #[kani::unwind(8)]
+    #[kani::stub(crate::packet::extension_fields::ExtensionFieldData::deserialize, efdata_deserialize_contract)]
+    #[kani::stub(crate::packet::v5::NtpServerCookie::new_random, server_cookie_stub)]
+    fn c23_tb_packet_deserialize_short_datagram_rejected() {
+        let data: [u8; 47] = kani::any();
+        let len: usize = kani::any();
+        kani::assume(len <= 47);
+        let d = &data[..len];
+        let r = NtpPacket::deserialize(d, &NoCipher);
+        match &r {
+            Ok(_) => assert!(false, "a datagram shorter than a header is never accepted"),
+            Err(ParsingError::InvalidVersion(v)) => assert!(len >= 1 && *v == (d[0] >> 3) & 7 && !(3..=5).contains(v)),
+            Err(ParsingError::DecryptError(_)) => assert!(false, "no packet can come out of a short datagram"),
+            Err(_) => {}
+        }
+        kani::cover!(len == 0, "empty datagram reachable");
+        kani::cover!(len == 47 && (d[0] >> 3) & 7 == 4, "one byte short of a v4 header");
+        core::mem::forget(r);
+    }
+}
+
+// the boundary case of that contract at quick-tier cost: the EMPTY datagram (the version dispatch
+// reads data[0]; lengths 1..=47 are rejected by the header decoders, c23_p_*_header_deserialize_total)
+harness! {
+    #[kani::unwind(8)]
+    #[kani::stub(crate::packet::extension_fields::ExtensionFieldData::deserialize, efdata_deserialize_contract)]
+    #[kani::stub(crate::packet::v5::NtpServerCookie::new_random, server_cookie_stub)]
+    fn c23_p_packet_deserialize_empty_datagram_rejected() {
+        let data: [u8; 0] = [];
+        let r = NtpPacket::deserialize(&data[..], &NoCipher);
+        let rejected = matches!(&r, Err(ParsingError::IncorrectLength));
+        core::mem::forget(r);
+        assert!(rejected, "the empty datagram is rejected as too short");
+        kani::cover!(true, "reachable");
     }
 }
 
